@@ -97,11 +97,11 @@ func NewIncludeExpressionNode(loc *position.Location, consts []ComplexConstantNo
 }
 
 func (*IncludeExpressionNode) Class() *value.Class {
-	return value.UsingAllEntryNodeClass
+	return value.IncludeExpressionNodeClass
 }
 
 func (*IncludeExpressionNode) DirectClass() *value.Class {
-	return value.UsingAllEntryNodeClass
+	return value.IncludeExpressionNodeClass
 }
 
 func (n *IncludeExpressionNode) Inspect() string {
